@@ -184,6 +184,9 @@ Mutants tried (scratch worktree /tmp/wt-C08, VERIF_REPO), all reported VIOLATION
                                                             failure after the data write: destination data file missing)
   seeded C08-r6m1 (mkdtemp replaced by a stable `.<file>.tmp` directory, makedirs exist_ok) -> oracle replay (a pre-existing
                                                             `.<file>.tmp/<file>` is clobbered / removed: pre-existing path changed)
+  seeded C08-r2m1 on the realpath-rule HEAD: with the non-destination tensor declared first the cache says "not the same
+                                                            file" for the shared location and the destination-backed tensor
+                                                            stays valid -> oracle replay (rule 4b, corpus 09)
 Unchanged tree: quiet for VERIF_SEED 0..4 (two `fixed:` lines).
 """
 
@@ -687,6 +690,20 @@ def oracle(scn: dict, root: str, before: dict, after: dict, outcome: str, failed
                 continue
             if p not in after or after[p][:3] != e[:3]:
                 bad.append(f"pre-existing path {p} changed")
+    # 4b. ... and exactly then: after a save that returned normally and replaced the destination, a WRITTEN external
+    # tensor (larger than the threshold) whose own path is the destination must not stay valid - it would silently
+    # read the new file at its old offset.  (Tensors reading through another hard link keep their old inode and
+    # stay valid; small tensors are copied to memory and are outside this rule.)
+    if built is not None and outcome == "ok" and not sharded:
+        exts = [t for t in scn["tensors"] if t["kind"] in ("ext", "small")]
+        for d in dests:
+            replaced = d in after and (d not in before or after[d][3] != before[d][3])
+            dreal = os.path.realpath(os.path.join(root, d))
+            for h, t in enumerate(built.ext):
+                if h < len(exts) and exts[h]["len"] > scn["threshold"] and replaced and t.valid() \
+                        and os.path.realpath(t.path) == dreal:
+                    bad.append(f"external tensor {h} was written from the replaced destination {d} but stays valid "
+                               "(it now reads the new file at its old offset)")
     # 4. invalidated only if the backing file was actually replaced
     if built is not None:
         for h, t in enumerate(built.ext):
